@@ -210,3 +210,13 @@ Theorem C16_source_effects2 :
   (forall q e k f cc now ql, peq (src_handle_stale_while_revalidate q e k f cc now ql) (handle_stale_while_revalidate q e k f cc now ql)).
 Proof. repeat split; [exact tie_store_response|exact tie_serve_from_cache|exact tie_handle_stale_while_revalidate]. Qed.
 Print Assumptions C16_source_effects2.
+
+(* ... and so does the footprint invariant of C19 (Proofs/FootConc.v): under every schedule every index stays free of duplicates
+   and null elements and every key is that of a (URL key, variant) pair of a request sent to the origin *)
+From HC.Proofs Require Import FootProofs FootConc.
+Theorem C16_footprint_invariant : forall T qs w sched cw n H0,
+  InvF (Pl H0) (VsL H0) (w_store w) ->
+  run_schedule T sched (start_of qs w) 0 = (cw, n) ->
+  InvF (Pl (w_log (cw_w cw) ++ H0)) (VsL (w_log (cw_w cw) ++ H0)) (w_store (cw_w cw)).
+Proof. intros T qs w sched cw n H0 HI Hrun. exact (concurrent_footprint T qs w sched cw n H0 HI Hrun). Qed.
+Print Assumptions C16_footprint_invariant.
